@@ -12,6 +12,7 @@ package main
 // density itself and the class constants lie in the declared domain (O5).
 
 import (
+	"go/types"
 	"fmt"
 	"go/ast"
 	"go/constant"
@@ -422,6 +423,79 @@ func checkC19(p *Prog, r *Report) {
 			}
 			return true
 		})
+	}
+	// the class table itself: every admissible class 1..5 has its own arm (tested by equality on the class of the
+	// horizon the routine was called for) that stores a density into that same horizon, densities rising with the class
+	if cfi := p.Funcs["hermes.SoilFileData.BulkDensityClassToDensity"]; cfi != nil {
+		cinfo := cfi.Pkg.TypesInfo
+		var iObj types.Object
+		if names := cfi.Decl.Type.Params.List; len(names) == 1 && len(names[0].Names) == 1 {
+			iObj = cinfo.Defs[names[0].Names[0]]
+		}
+		arms := map[int64]float64{}
+		okArms := iObj != nil
+		det := ""
+		ast.Inspect(cfi.Decl.Body, func(n ast.Node) bool {
+			as, ok := n.(*ast.AssignStmt)
+			if !ok || len(as.Lhs) != 1 || len(as.Rhs) != 1 || fieldOf(cinfo, as.Lhs[0]) != "BULK" {
+				return true
+			}
+			tv := cinfo.Types[as.Rhs[0]]
+			if tv.Value == nil {
+				okArms = false
+				det += "a density that is not a constant; "
+				return true
+			}
+			val, _ := constant.Float64Val(tv.Value)
+			if ix, ok := as.Lhs[0].(*ast.IndexExpr); !ok || useObj(cinfo, ix.Index) != iObj {
+				okArms = false
+				det += fmt.Sprintf("density %g is stored into another horizon than the one asked for; ", val)
+			}
+			conds, _ := astPathConds(cinfo, cfi.Decl.Body, as)
+			class := int64(-1)
+			for _, c := range conds {
+				be, ok := stripParens(c.E).(*ast.BinaryExpr)
+				if !ok || be.Op != token.EQL {
+					okArms = false
+					det += "arm tested by " + c.String() + "; "
+					continue
+				}
+				ix, ok := stripParens(be.X).(*ast.IndexExpr)
+				kv := cinfo.Types[be.Y].Value
+				if !ok || fieldOf(cinfo, ix.X) != "LD" || useObj(cinfo, ix.Index) != iObj || kv == nil {
+					okArms = false
+					det += "arm tested by " + c.String() + " (not the class of the horizon asked for); "
+					continue
+				}
+				k, _ := constant.Int64Val(kv)
+				if !c.Neg {
+					class = k
+				}
+			}
+			if class < 0 {
+				okArms = false
+				det += fmt.Sprintf("density %g is not under a positive class test; ", val)
+			} else if _, dup := arms[class]; dup {
+				okArms = false
+				det += fmt.Sprintf("class %d has two arms; ", class)
+			} else {
+				arms[class] = val
+			}
+			return true
+		})
+		for k := int64(1); k <= 5; k++ {
+			if _, ok := arms[k]; !ok {
+				okArms = false
+				det += fmt.Sprintf("class %d has no arm; ", k)
+			}
+			if k > 1 && arms[k] <= arms[k-1] {
+				okArms = false
+				det += fmt.Sprintf("density of class %d (%g) is not above that of class %d (%g); ", k, arms[k], k-1, arms[k-1])
+			}
+		}
+		r.Ob("class-table", p.Pos(cfi.Decl.Pos()), okArms && len(arms) == 5, fmt.Sprintf("bulk-density classes → densities %v %s", arms, det))
+	} else {
+		r.Ob("class-table", "-", false, "class table routine not found")
 	}
 	r.Ob("class-constants", "-", okConst && nconst >= 5, fmt.Sprintf("%d bulk-density class constants %v, all inside [0.8, 2.2]: %v (measured values from the soil file are assumed admissible)", nconst, vals, okConst))
 	// the measured bulk density of the csv soil layout is the column of that exact name (shared with C13.headers)
